@@ -50,6 +50,9 @@ def brownian_programs():
                           props=('C03', 'C04')))
             P.append(Prog(nm + '_hw', 'Brownian', (lambda B, h=have_H, l=is_left: pb.split(B, h, l, True)),
                           _sample_split(have_H), props=('C04', 'C06'), note='same kernel with halfway_tree=True'))
+    P.append(Prog('root_init', 'Brownian', pb.root_init,
+                  lambda rng: dict(t0=rng.uniform(-1.0, 0.5), t1=rng.uniform(0.6, 3.0), X1=rng.gauss(0, 1), X2=rng.gauss(0, 1)),
+                  props=('C04',), note='BrownianInterval.__init__: W, H of the whole interval'))
     P.append(Prog('h_to_u', 'Brownian', pb.h_to_u,
                   lambda rng: dict(W=rng.gauss(0, 1), H=rng.gauss(0, 1), h=rng.uniform(0.01, 2)), props=('C03',)))
     P.append(Prog('agg2', 'Brownian', lambda B: pb.aggregate(B, 2, False), _sample_agg(2, False), props=('C03',)))
